@@ -106,6 +106,7 @@ class Env:
         self.path2 = self.root / "out2" / "copy.tar"
         (self.root / "out2").mkdir()
         self.compute_fail_at = None
+        self.compute_exc = RuntimeError
         self.compute_calls = 0
 
     def close(self):
@@ -121,13 +122,13 @@ class Env:
         def evolve(eko, recipe):
             env.compute_calls += 1
             if env.compute_fail_at == env.compute_calls:
-                raise RuntimeError("injected computation failure")
+                raise env.compute_exc("injected computation failure")
             return _synth(("E", recipe.origin, recipe.target, recipe.nf))
 
         def match(eko, recipe):
             env.compute_calls += 1
             if env.compute_fail_at == env.compute_calls:
-                raise RuntimeError("injected computation failure")
+                raise env.compute_exc("injected computation failure")
             return _synth(("M", recipe.scale, recipe.hq, recipe.inverse))
 
         self._saved = (parts.evolve, parts.match)
@@ -154,16 +155,16 @@ class Env:
         with EKO.edit(self.path) as e:
             self.compute_calls += 1
             if self.compute_fail_at == self.compute_calls:
-                raise RuntimeError("injected user-code failure")
+                raise self.compute_exc("injected user-code failure")
             e[(77.0, 5)] = _synth(("new", 77.0))
             self.compute_calls += 1
             if self.compute_fail_at == self.compute_calls:
-                raise RuntimeError("injected user-code failure")
+                raise self.compute_exc("injected user-code failure")
             e.metadata.version = "9.9.9"
             e.update()
             self.compute_calls += 1
             if self.compute_fail_at == self.compute_calls:
-                raise RuntimeError("injected user-code failure")
+                raise self.compute_exc("injected user-code failure")
 
     def session_copy(self):
         """An edit session that ends with a deep copy to a second path (the edit itself is abandoned)."""
@@ -179,7 +180,7 @@ class Env:
                 e.update()
                 self.compute_calls += 1
                 if self.compute_fail_at == self.compute_calls:
-                    raise RuntimeError("injected user-code failure")
+                    raise self.compute_exc("injected user-code failure")
                 e.deepcopy(self.path2)
                 raise _Abandon()
         except _Abandon:
@@ -240,7 +241,10 @@ class Env:
         return "tmp"
 
 
-def run_session(kind, fail_at=None, compute_fail_at=None, tar_member_fail=None, retry_fail_at=None):
+INTERRUPTS = {"kbdint": KeyboardInterrupt, "sysexit": SystemExit, "genexit": GeneratorExit}
+
+
+def run_session(kind, fail_at=None, compute_fail_at=None, tar_member_fail=None, retry_fail_at=None, compute_exc=None):
     """Run one session in a fresh world; returns dict(steps, raised, arc, retry, n, fired)."""
     install()
     env = Env()
@@ -251,6 +255,7 @@ def run_session(kind, fail_at=None, compute_fail_at=None, tar_member_fail=None, 
             env.prepare_prev()
             env.compute_calls = 0
         env.compute_fail_at = compute_fail_at
+        env.compute_exc = INTERRUPTS.get(compute_exc, RuntimeError)
         st.update(armed=True, root=str(env.root), log=[], count=0, fail_at=fail_at, fired=False)
         raised = ""
         orig_addfile = tarfile.TarFile.addfile
